@@ -192,6 +192,9 @@ EvEnd ==
      (* C18 *)
      /\ Check("C18", "ExitsByItself", run.sigScan => e.exit # XSignaled, e.exit)
      /\ Check("C18", "InterruptedNeverPasses", (run.sigScan /\ e.exit = 0) => ~AnyMissing(post), e.exit)
+     /\ Check("C18", "LockCoversAfterStop", (run.sigScan /\ run.mode = "edit" /\ run.cache) => LockDominates(e.lock, w1),
+              [lock |-> e.lock, written |-> w1, exit |-> e.exit])
+     /\ Check("C18", "AtomicAfterStop", (run.sigScan \/ run.sigEarly) => \A f \in DOMAIN e.cls : e.cls[f] \in {"orig", "new", "gone"}, e.cls)
      /\ Check("C18", "EarlySignalHarmless", (run.sigEarly /\ e.exit = XSignaled) => ~run.mutated, e.exit)
   /\ UNCHANGED maxid
 
